@@ -19,11 +19,11 @@ EXTENDS GlomMutate
 CONSTANTS MaxSpine,       \* nested container levels (0 = scalar / leaf root)
           LevelClasses,   \* subset of {"dict", "idict", "list", "tuple", "obj"}
           LeafOpts,       \* subset of {"none", "int", "str", "edict", "elist", "fset"}
-          SideOpts,       \* subset of {"absent", "none", "shared", "empty"}
+          SideOpts,       \* subset of {"absent", "none", "shared", "empty", "mixobj", "mixdict", "mixlist"}
           Alpha,          \* "tiny" | "small" | "full": step alphabet for paths of length <= 2
           Alpha3,         \* "none" | "p" | "small": alphabet for paths of length 3
           Reuse,          \* BOOLEAN: the same Assign spec object is evaluated a second time, on another target
-          Profiles        \* subset of {"plain", "vals", "miss", "missval", "missflag", "star", "reuse"}
+          Profiles        \* subset of {"plain", "vals", "miss", "missval", "missflag", "star", "reuse", "litval"}
 
 VARIABLES exp,           \* what the law expects for the case (Ref(case))
           round,         \* 1: first evaluation of the spec object, 2: second evaluation (Reuse)
@@ -35,13 +35,20 @@ Leaf(nm) == CASE nm = "none" -> VNone [] nm = "int" -> VInt(7) [] nm = "str" -> 
 Key1(cls) == IF cls = "idict" THEN VInt(0) ELSE VStr("a")
 Key2(cls) == IF cls = "idict" THEN VInt(1) ELSE VStr("b")
 PyCls(cls) == IF cls = "idict" THEN "dict" ELSE cls
-Extra == 3               \* cells n+1: {}, n+2: [], n+3: frozenset({1})
+Extra == 4               \* cells n+1: {}, n+2: [], n+3: frozenset({1}), n+4: a sibling of another type
+\* side "mixobj" / "mixdict" / "mixlist": the second entry of every level is cell n+4, an attribute
+\* object / dict / list holding the same keys ("a", "0", index 0) as the levels do, so that a
+\* wildcard over a level matches destinations of different types (different handlers)
 
 MkHeap(levels, leaf, side) ==
   LET n == Len(levels)
       fix(v) == IF IsRef(v) /\ v.a < 0 THEN VRef(n - v.a) ELSE v
       first(i) == IF i < n THEN VRef(i + 1) ELSE fix(leaf)
-      second(i) == CASE side = "shared" -> first(i) [] side = "empty" -> VRef(n + 1) [] OTHER -> VNone
+      second(i) == CASE side = "shared" -> first(i) [] side = "empty" -> VRef(n + 1)
+                     [] side \in {"mixobj", "mixdict", "mixlist"} -> VRef(n + 4) [] OTHER -> VNone
+      mix == CASE side = "mixdict" -> Cell("dict", << <<VStr("a"), VInt(1)>>, <<VStr("0"), VInt(2)>>, <<VStr("b"), VInt(3)>> >>)
+               [] side = "mixlist" -> Cell("list", <<VInt(1), VInt(2)>>)
+               [] OTHER -> Cell("obj", << <<VStr("a"), VInt(1)>>, <<VStr("0"), VInt(2)>>, <<VStr("b"), VInt(3)>> >>)
       cell(i) == LET c == levels[i] IN
                  IF c \in {"list", "tuple"}
                  THEN Cell(c, IF side = "absent" THEN <<first(i)>> ELSE <<first(i), second(i)>>)
@@ -50,7 +57,8 @@ MkHeap(levels, leaf, side) ==
   IN [i \in 1..(n + Extra) |-> IF i <= n THEN cell(i)
                                ELSE IF i = n + 1 THEN Cell("dict", <<>>)
                                ELSE IF i = n + 2 THEN Cell("list", <<>>)
-                               ELSE Cell("frozenset", <<VInt(1)>>)]
+                               ELSE IF i = n + 3 THEN Cell("frozenset", <<VInt(1)>>)
+                               ELSE mix]
 Root(levels, leaf) == LET n == Len(levels) IN
   IF n > 0 THEN VRef(1) ELSE IF IsRef(leaf) THEN VRef(n - leaf.a) ELSE leaf
 
@@ -79,7 +87,7 @@ StarPaths == {<<X, f>> : f \in Final2} \cup {<<X, X, f>> : f \in Final2}
              \cup {<<p, X, f>> : p \in Parent2, f \in Final2} \cup {<<X, p, f>> : p \in Parent2, f \in Final2}
 \* three-segment paths (two absent segments, two factory calls) for the profiles with missing=;
 \* for the others only when the target is deep enough to have a parent at depth 2
-PathsFor(prof, h) == IF prof = "star" THEN StarPaths ELSE IF prof \in {"miss", "missval", "missflag", "reuse"} \/ Len(h) - Extra >= 2 THEN Paths2 \cup Paths3 ELSE Paths2
+PathsFor(prof, h) == IF prof = "star" THEN StarPaths ELSE IF prof \in {"miss", "missval", "missflag", "reuse", "litval"} \/ Len(h) - Extra >= 2 THEN Paths2 \cup Paths3 ELSE Paths2
 
 \* ---- values, missing, faults ---------------------------------------------------------
 Lit(v) == [k |-> "lit", v |-> v, steps |-> <<>>]
@@ -87,6 +95,18 @@ VSpec(steps) == [k |-> "spec", v |-> VNone, steps |-> steps]
 VT(steps) == [k |-> "t", v |-> VNone, steps |-> steps]
 OtherVals == {VT(<<>>), VSpec(<<Step("P", VStr("a"))>>), VSpec(<<Step("P", VStr("0"))>>),
               VT(<<Step("[", VStr("b"))>>)}
+\* literal container values (rebuilt by argument mode): own cells, vref = reference between them
+VRf(a) == [k |-> "vref", a |-> a]
+TLeaf == [k |-> "t", steps |-> <<>>]                        \* a T inside the literal: the target
+LitC(a, cells) == [k |-> "lit", v |-> VRf(a), steps |-> <<>>, cells |-> cells]
+LitVals ==
+  { LitC(1, << Cell("list", <<VInt(1), VRf(1)>>) >>),                                   \* val = [1, val]
+    LitC(1, << Cell("list", <<VRf(2)>>), Cell("dict", << <<VStr("back"), VRf(1)>> >>) >>),   \* list -> dict -> list
+    LitC(2, << Cell("list", <<VRf(2)>>), Cell("dict", << <<VStr("back"), VRf(1)>> >>) >>),   \* same, entered at the dict
+    LitC(1, << Cell("list", <<VRf(2), VRf(2)>>), Cell("list", <<VInt(0), VInt(0)>>) >>),     \* [row, row]
+    LitC(1, << Cell("dict", << <<VStr("p"), VRf(2)>>, <<VStr("q"), VRf(2)>>, <<VStr("t"), TLeaf>> >>),
+               Cell("dict", << <<VStr("k"), VInt(1)>> >>) >>),                               \* aliased dict + T leaf
+    LitC(1, << Cell("dict", << <<VStr("me"), VRf(1)>>, <<VStr("l"), VRf(2)>> >>), Cell("list", <<VRf(2), VRf(1)>>) >>) }
 Miss(m, f) == [m |-> m, f |-> f]
 NoMiss == {Miss("none", 0)}
 Factories == {Miss("dict", f) : f \in 0..2} \cup {Miss("obj", f) : f \in 0..1} \cup {Miss("list", 0)}
@@ -97,9 +117,11 @@ OneFlag(h) == UNION {{[a \in 1..Len(h) |-> IF a = b THEN f ELSE ""] : f \in Appl
 
 ValsFor(prof) == CASE prof = "vals" -> OtherVals
                    [] prof = "missval" -> {VT(<<>>), VSpec(<<Step("P", VStr("a"))>>), VT(<<Step("[", VStr("b"))>>)}
+                   [] prof = "litval" -> LitVals
                    [] OTHER -> {Lit(VInt(9))}
 MissFor(prof) == CASE prof \in {"plain", "vals", "star"} -> NoMiss [] prof = "miss" -> Factories
                    [] prof = "reuse" -> {Miss("dict", 0), Miss("obj", 0)}
+                   [] prof = "litval" -> {Miss("none", 0), Miss("dict", 0)}
                    [] OTHER -> {Miss("dict", 0)}
 FlagsFor(prof, h) == CASE prof \in {"plain", "star"} -> {NoFlags(h)} \cup OneFlag(h) [] prof = "missflag" -> OneFlag(h)
                        [] OTHER -> {NoFlags(h)}
